@@ -174,8 +174,8 @@ class Body:
             for st in bl['stmts']:
                 rv = st.get('rv')
                 if rv and rv.get('rv') == 'agg' and rv.get('kind') == 'adt' and rv.get('adt') == 'std::result::Result' \
-                        and rv.get('variant') == 'Err':
-                    out.add(i)
+                        and rv.get('variant') == 'Err' and st['lhs']['l'] == 0 and not st['lhs']['p']:
+                    out.add(i)   # `return Err(..)`: the Err is built directly in the return place
         return out
 
     def panic_blocks(self):
@@ -281,13 +281,16 @@ def operand_places(x):
 
 
 class Prog:
-    def __init__(self, crates, crate='risinglight', test=False):
+    def __init__(self, crates, crate='risinglight', test=False, kind='Rlib', recs=None, label=None):
         self.crates = crates
-        recs = []
-        for c in crates:
-            if c['crate'] == crate and c['test'] == test:
-                recs = c['recs']
+        if recs is None:
+            recs = []
+            for c in crates:
+                if c['crate'] == crate and c['test'] == test and kind in c['types']:
+                    recs = c['recs']
         self.recs = recs
+        self.label = label or f'{crate}({kind}{",test" if test else ""})'
+        self.extra = []
         self.bodies = {}
         for r in recs:
             if r['t'] == 'body':
@@ -394,6 +397,13 @@ class Prog:
             self._callers = idx
         return self._callers
 
+    def calls_matching_all(self, pat):
+        """call sites in the library and in every other target of the scope (bin, tests, benches)"""
+        out = list(self.calls_matching(pat))
+        for p in self.extra:
+            out.extend(p.calls_matching(pat))
+        return out
+
     def calls_matching(self, pat):
         pat = P(pat)
         out = []
@@ -435,6 +445,10 @@ def load(scope='lib', crate='risinglight', test=False):
     fdir, key, info = facts.ensure_facts(scope)
     crates = facts.load_records(fdir)
     prog = Prog(crates, crate=crate, test=test)
+    for c in crates:
+        is_lib = c['crate'] == crate and c['test'] == test and 'Rlib' in c['types']
+        if not is_lib and not c['crate'].startswith('risinglight_proto'):
+            prog.extra.append(Prog(crates, recs=c['recs'], label=f"{c['crate']}({c['types']}{',test' if c['test'] else ''})"))
     prog.key = key
     prog.info = info
     prog.all_crates = crates
